@@ -30,7 +30,8 @@ AXES = [
     ('features', ['sparse', 'absent', 'sparse_rows', 'noind']),
     ('tfeatures', ['sparse', 'absent', 'sparse_rows', 'noind']),
     ('similar', [True, False]),
-    ('raw', [True, False]),
+    ('raw', [True, False, 'missing']),   # missing: params.py names a raw file that is not there
+    ('raw_dir', ['', 'rawdata']),        # the raw files in a sub-directory, named by a relative path
     ('raw_extra_channels', [0, 2]),
     ('raw_offset', [0, 7]),
     ('raw_files', [1, 2]),
